@@ -391,9 +391,25 @@ def pi_post(c, v0, v1, r):
             'rows': c.Forall2((0, n), (0, W), lambda l, w: c.Eq(r[1][l, w], c.exp(-Srow(c, sat_axioms(c, m, W)[1](l), l, w))))}
 
 
+def _abs_new_paths(ex, st, args, kwargs, node):
+    """ASSUMED shape contract of the second path-length method (compute_path_length -> BasePlanet.compute_path_length ->
+    util/geometry.py, numpy masks and NaN filters: outside the subset): one row per layer, row l with n-l segments, as
+    the default method.  Its VALUES (documented chords) are checked by the bounded item new_path_method_chords."""
+    c = ex.c
+    me = st.get(args[0])
+    n = me.attrs['nLayers']
+    rl = z3.Function('rowlen!%d' % next(c._fresh), z3.IntSort(), z3.IntSort())
+    el = z3.Function('rag!%d' % next(c._fresh), z3.IntSort(), z3.IntSort(), z3.RealSort())
+    nr = c.fresh('nrows')
+    st.assume(nr == to_int(n))
+    l = c.fresh('l')
+    st.assume(z3.ForAll([l], z3.Implies(z3.And(0 <= l, l < to_int(n)), rl(l) == to_int(n) - l), patterns=[rl(l)]))
+    return st.alloc(c, Ragged(nr, lambda i: rl(to_int(i)), lambda i, j: el(to_int(i), to_int(j))))
+
+
 PI = Unit(['C01', 'C03', 'C13', 'C19'], TM + 'path_integral', _pi_params, pre=pi_pre, post=pi_post,
-          invariants={0: pi_inv0, 1: pi_inv1}, abstract={'Contribution.contribute': _k2_contribute},
-          cases=[{'new_method': False}], inline=['altitudeProfile', 'fullRadius', 'radius'],
+          invariants={0: pi_inv0, 1: pi_inv1}, abstract={'Contribution.contribute': _k2_contribute, 'call:compute_path_length': _abs_new_paths},
+          cases=[{'new_method': False}, {'new_method': True}], inline=['altitudeProfile', 'fullRadius', 'radius'],
           frame_attrs=[('self', 'path_length')], short='TransmissionModel.path_integral', timeout_ms=20000,
           native=_pi_native, gen=_pi_gen,
           doc='per layer: tau = sum over the contribution list (or over a saturated prefix) of the abstract '
@@ -453,3 +469,70 @@ def _tau_nonneg(c):
 
 
 Lemma('C01', 'optical_depth_nonnegative', _tau_nonneg, doc='sum of non-negative K2 increments')
+
+
+# ------------------------------------------------------------------ bounded: the second path-length method against the documented chords
+from pyvc.unit import Bounded
+
+
+def _b_new_paths(seed, tier):
+    """TransmissionModel.compute_path_length (rays at mid-layer altitude through the spherical shells bounded by the
+    level altitudes; numpy geometry with NaN filters) against the closed form: ray l crosses shell k >= l with
+    2 sqrt((R+z_{k+1})^2 - (R+t_l)^2) - 2 sqrt((R+z_k)^2 - (R+t_l)^2)  (first term only for k = l), t_l = z_l + dz_l/2"""
+    import random
+    import numpy as np
+    from taurex.model.transmission import TransmissionModel
+    from taurex.data.planet import Planet
+    rng = random.Random(seed)
+    N = 40 if tier == 'quick' else 600
+    fails, samples = [], []
+    for case in range(N):
+        n = rng.randint(1, 12)
+        R = rng.uniform(5e6, 1.5e8)
+        dz = [rng.uniform(1e3, 3e5) for _ in range(n)]
+        z = [0.0]
+        for x in dz:
+            z.append(z[-1] + x)
+        pl = Planet(planet_mass=1.0, planet_radius=1.0)
+        m = TransmissionModel.__new__(TransmissionModel)
+        for nm in ('debug', 'info', 'warning', 'error', 'critical'):
+            setattr(m, nm, lambda *a, **k: None)
+        m._planet = pl
+        pl._radius = R
+        m.altitude_boundaries = np.array(z)
+        m.altitude_profile = np.array(z[:-1])
+        m.deltaz = np.array(dz)
+        inputs = dict(n=n, R=R, dz=dz)
+        try:
+            got = m.compute_path_length()
+        except Exception as e:
+            fails.append({'clause': 'no_exception', 'inputs': inputs, 'observed': repr(e)})
+            continue
+        ok = len(got) == n
+        worst = 0.0
+        for l in range(n if ok else 0):
+            t = z[l] + dz[l] / 2.0
+            ch = [2.0 * np.sqrt((R + z[k]) ** 2 - (R + t) ** 2) for k in range(l + 1, n + 1)]
+            want = [ch[0]] + [ch[j] - ch[j - 1] for j in range(1, len(ch))]
+            g = np.asarray(got[l], dtype=float)
+            if g.shape != (n - l,):
+                ok = False
+                break
+            # tolerance: the geometry works with coordinates of size ~R and subtracts them (relative 1e-7 of R in a segment)
+            err = np.max(np.abs(g - np.array(want)))
+            worst = max(worst, err / R)
+            if not err <= 1e-7 * R:
+                ok = False
+                break
+        if len(samples) < 2:
+            samples.append(dict(inputs, worst_error_over_R=worst))
+        if not ok:
+            fails.append({'clause': 'documented_chords', 'inputs': inputs,
+                          'observed': 'rows %s' % [np.asarray(x).tolist() for x in got][:3]})
+    return {'cases': N, 'failures': fails, 'samples': samples,
+            'bound': '%d random atmospheres (1..12 layers, radii 5e6..1.5e8 m), absolute tolerance 1e-7 R per segment' % N}
+
+
+Bounded('C01', 'new_path_method_chords', _b_new_paths,
+        doc='compute_path_length / BasePlanet.compute_path_length / util.geometry (3-D line-sphere intersections with NaN masks) are '
+            'outside the verified subset: run-time contract against the documented chord lengths')
